@@ -12,13 +12,13 @@ Kinds == {"GET", "POST", "HEAD", "CONNECT", "GETviaProxy", "CONNECTviaProxy", "M
 Faults == {"dial_refused", "dial_timeout", "tls_garbage", "tls_untrusted", "tls_expired", "tls_wrongname",
            "proxy_connect_403", "proxy_connect_407", "proxy_connect_502", "proxy_connect_403_body",
            "cut_head", "cut_body_cl", "cut_body_chunked", "rst_head", "rst_body",
-           "bad_status_line", "bad_field", "bad_chunk_size", "trailing_garbage", "none"}
+           "bad_status_line", "bad_field", "bad_chunk_size", "bad_gzip", "trailing_garbage", "none"}
 \* which faults can occur for which kind of request
 Applies(f, k) ==
   CASE f \in {"tls_garbage", "tls_untrusted", "tls_expired", "tls_wrongname"} -> k = "MITMGET"
     [] f \in {"proxy_connect_403", "proxy_connect_407", "proxy_connect_502", "proxy_connect_403_body"} -> k = "CONNECTviaProxy"
     [] f \in {"cut_head", "rst_head", "bad_status_line", "bad_field", "trailing_garbage", "none"} -> k # "CONNECT"
-    [] f \in {"cut_body_cl", "cut_body_chunked", "rst_body", "bad_chunk_size"} -> k \notin {"CONNECT", "CONNECTviaProxy", "HEAD"}
+    [] f \in {"cut_body_cl", "cut_body_chunked", "rst_body", "bad_chunk_size", "bad_gzip"} -> k \notin {"CONNECT", "CONNECTviaProxy", "HEAD"}
     [] OTHER -> TRUE
 \* what the client must get: an error response of the given status set, a connection closed after the
 \* head (never a complete message), or the origin's complete response
@@ -34,7 +34,9 @@ Outcome(f, k) ==
   IF f = "none" THEN [o |-> "full", st |-> {200}]
   \* the transport may or may not notice the garbage before it has handed over the response
   ELSE IF f = "trailing_garbage" THEN [o |-> "full_or_error", st |-> 500..599]
-  ELSE IF f \in {"cut_body_cl", "cut_body_chunked", "rst_body", "bad_chunk_size"} THEN [o |-> "closed_after_head", st |-> {200}]
+  \* bad_gzip: the proxy itself solicited gzip (client sent no Accept-Encoding) and the stream it decodes is
+  \* damaged in the middle / fails its checksum at the end: a failure after the head, like a cut
+  ELSE IF f \in {"cut_body_cl", "cut_body_chunked", "rst_body", "bad_chunk_size", "bad_gzip"} THEN [o |-> "closed_after_head", st |-> {200}]
   ELSE [o |-> "error_response", st |-> Statuses(f)]
 \* a CONNECT tunnel via the upstream proxy that is cut later is not an HTTP matter
 Cases == {c \in [f : Faults, k : Kinds] : Applies(c.f, c.k) /\ ~(c.k = "CONNECTviaProxy" /\ c.f \in {"cut_head", "rst_head", "bad_status_line", "bad_field", "trailing_garbage"})}
